@@ -694,6 +694,26 @@ def check(case):
 
     # ---- value (modulo one constant per configuration); -inf exactly
     gots = [None] * len(vecs)
+    # the same vector in other forms: read-only / non-contiguous arrays, and whole numbers typed as integers
+    with case.clause('argument_forms'):
+        from vf.core import array_forms
+        base = _scalar(P(vecs[0].copy()))
+        for label, arg in array_forms(vecs[0]):
+            case.close(_scalar(P(arg)), base, rtol=1e-12, what='value for the vector given as %s' % label)
+        if np.isfinite(base):
+            g_base = np.asarray(P.evaluateS1(vecs[0].copy())[1], dtype=float)
+            for label, arg in array_forms(vecs[0]):
+                case.close(np.asarray(P.evaluateS1(arg)[1], dtype=float), g_base, rtol=1e-12,
+                           what='gradient for the vector given as %s' % label)
+        v_i = np.maximum(1, np.round(np.abs(vecs[0]))).astype(int)
+        b_i = _scalar(P(v_i.astype(float)))
+        for label, arg in (('an int array', v_i), ('a list of Python ints', v_i.tolist())):
+            case.close(_scalar(P(arg)), b_i, rtol=1e-12, what='value for whole numbers given as %s vs as floats' % label)
+            if np.isfinite(b_i):
+                case.close(np.asarray(P.evaluateS1(arg)[1], dtype=float),
+                           np.asarray(P.evaluateS1(v_i.astype(float))[1], dtype=float), rtol=1e-12,
+                           what='gradient for whole numbers given as %s vs as floats' % label)
+
     with case.clause('value'):
         for k, v in enumerate(vecs):
             gots[k] = _scalar(P(v.copy()))
